@@ -84,7 +84,12 @@ ThresholdOK(s) == 1 <= s.threshold /\ s.threshold <= Cardinality(s.attesters)
 
 \* inputs on which the property statements are silent (DESIGN 2.7): the specification models what the code does
 \* there, but no lens may depend on it
+\* an attestation containing a malleated (high-s) signature: the statement forbids that it lowers the number of
+\* distinct signers, it does not demand that it be accepted (the code accepts it today; low-s enforcement is a
+\* hardening)
+MalleatedAtt(m) == "att" \in DOMAIN m /\ \E i \in DOMAIN m.att.sigs : m.att.sigs[i].enc \in {"hs01", "hs2728"}
 DontCare(m) ==
+  \/ MalleatedAtt(m)
   \/ (m.type = "ReceiveMessage" /\ m.wire.k = "msg" /\ ~IsZero32(m.wire.caller) /\ m.wire.caller.hi # "z")
   \/ (m.type \in ReplTypes /\ m.caller.n # 32)
   \* registering values that can never work (the code accepts them today; refusing them would break no property)
@@ -218,7 +223,8 @@ LensR(p, pre, m, f, o, r) ==
                             \/ (res # "ok" /\ o.post = pre)
          /\ HasAtt(m) =>
               \* the verifier accepts exactly the quorum attestations; no handler accepts without one
-              /\ (o.vas = "ok") <=> AttestDecl(pre.attesters, pre.threshold, m.att)
+              /\ (o.vas = "ok") => AttestDecl(pre.attesters, pre.threshold, m.att)
+              /\ (AttestDecl(pre.attesters, pre.threshold, m.att) /\ ~MalleatedAtt(m)) => o.vas = "ok"   \* conversely, honest ones
               /\ res = "ok" => AttestDecl(pre.attesters, pre.threshold, m.att)
               /\ AttestDecl(pre.attesters, pre.threshold, m.att)
                    => DistinctEnabledSigners(pre.attesters, m.att) >= pre.threshold
@@ -229,7 +235,8 @@ LensR(p, pre, m, f, o, r) ==
          /\ (o.post.used \ pre.used) \subseteq (IF isRecv /\ res = "ok" THEN {key} ELSE {})
          /\ (isRecv /\ res = "ok") => (key \notin pre.used /\ key \in o.post.used)
     [] p = "C03" ->
-         /\ (res = "ok") <=> RecvAccept(pre, m, Outcome(o.calls, "Mint"))
+         /\ (res = "ok") => RecvAccept(pre, m, Outcome(o.calls, "Mint"))
+         /\ (RecvAccept(pre, m, Outcome(o.calls, "Mint")) /\ ~MalleatedAtt(m)) => res = "ok"
          /\ res # "ok" => o.post = pre                                     \* no mint, no nonce consumed
     [] p = "C04" ->
          /\ both => /\ OkCalls(o.calls, "Mint") = OkCalls(exp.calls, "Mint")
